@@ -154,6 +154,21 @@ GenLenAt(j) ==
             [len |-> n, feed |-> BytesToHex(Prng(K("gl", <<j>>), 40)),
              fail_at |-> IF m = 0 THEN <<>> ELSE IF m = 1 THEN <<0>> ELSE <<0, 1, 2, 3>>])
 
+\* every list word replaced by its polynomial-hash twins (DocAst!PolyTwins: B in {31, 33, 37, 131, 257}, k = +-1, +-2, every
+\* position) as the FIRST word of a 12-word phrase that is valid with the word itself: histories of 150 parses
+PolyWordsPer == 6
+NPolyWords == (2048 + PolyWordsPer - 1) \div PolyWordsPer
+PolyWordAt(j) ==
+  LET ws == [q \in 1..PolyWordsPer |-> (j - 1) * PolyWordsPer + q - 1]
+      phraseOf(w, tok) ==        \* entropy whose first 11 bits are w, the rest zero
+        LET ent == <<w \div 8, (w % 8) * 32>> \o Zeros(14)
+            idx == IdxOfEntropy(ent)
+        IN  tok \o " " \o JoinWith(SubSeq(idx, 2, 12), " ")
+      stepsOf(w) == IF w > 2047 THEN <<>>
+                    ELSE LET tw == PolyTwins(StrToUtf8(Words[w + 1]), 33)
+                         IN  [q \in 1..Len(tw) |-> [op |-> "mnemonic.parse", in |-> [text |-> phraseOf(w, Utf8ToStr(tw[q]))]]]
+  IN  MItem("seq", "polynomial_hash_twins", [steps |-> Concat([q \in 1..PolyWordsPer |-> stepsOf(ws[q])])])
+
 \* requested lengths that ALIAS a supported length when the number - or the number times 4 / 32 / 11, the scalings the
 \* arithmetic of a generator uses - is truncated to 8, 16, 32 or 64 bits: L + k 2^j for j in {8, 16, 31, 32, 59, 61, 62, 63}
 AliasPows == <<8, 16, 31, 32, 59, 61, 62, 63>>
